@@ -53,7 +53,11 @@ fn main() {
     for s in seed..seed + n {
         let rt = runtime();
         trace_begin();
-        install_hook_sink();
+        match wl.as_str() {
+            // upper-layer workloads observe the API; chmux hook events would only bloat their traces
+            "rwlock" => install_hook_sink_for(&["rw_"]),
+            _ => install_hook_sink(),
+        }
         match wl.as_str() {
             "data" => {
                 let opts = chmux_data::DataOpts {
